@@ -74,8 +74,6 @@ package binding
 
 //@ func (*Binder).reserveGPUs
 //@   props C11 C17
-//@   trusted
-//@   note TEMPORARY (engine limitation reported to main): loop-head havoc for the callee-contract write `fields(pod)` of Interface.ReserveGpuDevice is whole-family, so the 118 frame obligations cannot be proved; everything else of this unit (invariants, postconditions, no-panic) is green when run without `trusted`
 //@   requires b != nil && b.resourceReservationService != nil && pod != nil && bindRequest != nil
 //@   modifies fields(pod), family(rr.gone(nil))
 //@   loop 1
